@@ -67,6 +67,13 @@ class Ctx:
         self.say('translator:', out.strip().replace('\n', ' | '))
         if rc != 0:
             self.problems.append(('translator', out.strip()))
+        # signature tables of C04 (kept fresh on every run; only C04 reports a failure of this translator)
+        rc2, out2, dt2 = sh([sys.executable, os.path.join(VERIF, 'tools', 'c04.py'), '--tables', REPO, os.path.join(COQ, 'gen')])
+        self.tables_msg = out2.strip()
+        if self.pid == 'C04':
+            self.say('translator:', self.tables_msg)
+            if rc2 != 0:
+                self.problems.append(('translator', self.tables_msg))
         return rc == 0
 
     # ------------------------------------------------------------ Coq
